@@ -522,6 +522,10 @@ Section StmtJ.
         * (* ELSE *)
           eapply orel_ext; [intro; symmetry; apply bind_assoc|].
           apply sj_bind_r; [apply sj_stmt_or_goto|intros _].
+          eapply orel_ext; [intro; symmetry; apply bind_assoc|].
+          apply (orel_bind _ RE_ocat); [apply re_peek_is|intros e].
+          eapply orel_ext; [intro; symmetry; apply bind_assoc|].
+          apply (orel_bind _ RE_ocat); [destruct e; [apply re_discard|apply (orel_ret _ RE_ocat)]|intros ?].
           eapply orel_ext; [intro; symmetry; apply Safety.bind_ret|]. apply (orel_ret _ RE_ocat).
   Qed.
 End StmtJ.
